@@ -81,6 +81,11 @@ type FloodConfig struct {
 	// private key. When nil, all commands are accepted (backward compatible).
 	SigningPublicKey *[32]byte
 
+	// MaxHops is the maximum number of hops a route advertisement may travel
+	// from its origin (routing.max_hops). An advertisement received farther
+	// away is neither stored nor forwarded. Zero means no limit.
+	MaxHops int
+
 	// TimestampWindow is the maximum age of a command timestamp to accept.
 	// Commands with timestamps outside +/- this window are rejected.
 	// Default is 5 minutes.
@@ -260,6 +265,12 @@ func (f *Flooder) HandleRouteAdvertise(
 		}
 	}
 
+	// Enforce the configured hop limit. The path lists every hop from the
+	// sending peer back to the origin, so its length is our distance.
+	if f.cfg.MaxHops > 0 && len(path) > f.cfg.MaxHops {
+		return false
+	}
+
 	// Convert protocol routes to routing entries (CIDR, domain, forward, and agent)
 	cidrEntries := make([]routing.RouteEntry, 0, len(routes))
 	domainEntries := make([]routing.DomainRouteEntry, 0)
@@ -317,6 +328,12 @@ func (f *Flooder) HandleRouteAdvertise(
 	// Process forward routes in routing manager
 	if len(forwardEntries) > 0 {
 		f.routeMgr.ProcessForwardRouteAdvertise(fromPeer, originAgent, sequence, forwardEntries, path, encPath)
+	}
+
+	// At the hop limit there is no point forwarding: every receiver would be
+	// beyond it.
+	if f.cfg.MaxHops > 0 && len(path) >= f.cfg.MaxHops {
+		return true
 	}
 
 	// Flood to other peers (forward encrypted path as-is)
